@@ -250,3 +250,68 @@ func VH_C12_index_overflow() {
 	}
 	verifReach("end")
 }
+
+// Text keys under a collation: an index leaf of 3 one-byte text entries sorted
+// by the reference NOCASE / RTRIM / BINARY order (ties by rowid); from-key and
+// equality scans with a one-byte text key carrying the same collation.
+//verif:prop C13,C03
+//verif:bounds index leaf of 3 entries (text of exactly 1 byte, any byte < 0x80; rowids any int64), collation binary / nocase / rtrim, ASC; key = any 1-byte text; ScanMin and ScanEq
+func VH_C13_text_collation() {
+	coll := verifChoice(3)
+	e := vhNewEnv()
+	type ent struct {
+		s     string
+		rowid int64
+	}
+	var ents []ent
+	l := &indexLeaf{}
+	for i := 0; i < 3; i++ {
+		s := verifString(1)
+		verifAssume(s[0] < 0x80)
+		en := ent{s, verifInt64()}
+		if i > 0 {
+			c := rmCompare(ents[i-1].s, en.s, coll)
+			verifAssume(verifOr(c < 0, verifAnd(c == 0, ents[i-1].rowid < en.rowid)))
+		}
+		ents = append(ents, en)
+		b := VerifRecord(en.s, en.rowid)
+		l.cells = append(l.cells, cellPayload{Length: int64(len(b)), Payload: b})
+	}
+	in := &Index{db: e.db, root: e.newPage(l)}
+	ks := verifString(1)
+	verifAssume(ks[0] < 0x80)
+	key := Key{{V: ks, Collate: vhCollNames[coll]}}
+	if coll == 0 && verifChoice(2) == 1 {
+		key[0].Collate = "" // default collation
+	}
+	var got []Record
+	cb := func(r Record) bool { got = append(got, r); return false }
+	eq := verifChoice(2) == 1
+	var err error
+	var want []ent
+	if eq {
+		err = in.ScanEq(key, cb)
+		for _, en := range ents {
+			if rmCompare(ks, en.s, coll) == 0 {
+				want = append(want, en)
+			}
+		}
+	} else {
+		err = in.ScanMin(key, cb)
+		for _, en := range ents {
+			if rmCompare(ks, en.s, coll) <= 0 {
+				want = append(want, en)
+			}
+		}
+	}
+	verifAssert(err == nil, "scan succeeds")
+	verifAssert(len(got) == len(want), "exactly the entries selected by the reference order under the collation")
+	if len(got) == len(want) {
+		for i := range got {
+			s, ok1 := got[i][0].(string)
+			r, ok2 := got[i][1].(int64)
+			verifAssert(ok1 && ok2 && s == want[i].s && r == want[i].rowid, "entries in index order")
+		}
+	}
+	verifReach("end")
+}
